@@ -6,11 +6,10 @@ Model of `Value::GroupBy` (Include/Value.hpp:1849-1912) and its specification.
 over *all* slots of the element (removed items included), the scratch object `new_sub_obj` that
 is moved into the group after each element (and is therefore empty again), and the pair
 `str/str_len`, which is *not* reset between elements (an element without the key is filed under the
-previous element's text).  `skipRemoved = false` is the code as it is: a removed item, or a member whose
-value is undefined, makes the call return `false` (with the groups built so far left in the
-destination).  `skipRemoved = true` is the repaired behaviour (notes/fix-groupby-removed-member.diff):
-removed items (`Hash == 0`) are skipped; a live member that was never assigned still makes the call
-return `false` (the pinned suite requires that, Tests/ValueTest.hpp:5773-5779).
+previous element's text).  A removed item (`Hash == 0`) is skipped (repair 04169f1; before it the call returned
+`false`); a live member whose value is undefined (created by a subscript and never assigned) makes
+the call return `false`, with the groups built so far left in the destination (the pinned suite
+requires that, Tests/ValueTest.hpp:5773-5779).
 
 `groupBySpec` is the specification on association lists.
 No proofs in this file.
@@ -30,16 +29,16 @@ def subObjSet (k : Key) (v : Doc) (o : Nat × List Slot) : Nat × List Slot :=
   (e.1, slotUpd k (fun _ => copyDoc v) e.2)
 
 /-- Inner loop over the slots of one element. `none` = `return false`. -/
-def groupScan (fmtReal : Nat → List Nat) (env : Env) (skipRemoved : Bool) (key : Key) :
+def groupScan (fmtReal : Nat → List Nat) (env : Env) (key : Key) :
     List Slot → Key → Nat × List Slot → Option (Key × (Nat × List Slot))
   | [], cur, sub => some (cur, sub)
-  | none :: r, cur, sub => if skipRemoved then groupScan fmtReal env skipRemoved key r cur sub else none
+  | none :: r, cur, sub => groupScan fmtReal env key r cur sub
   | some (k, v) :: r, cur, sub =>
     if v.isUndef then none
-    else if k ≠ key then groupScan fmtReal env skipRemoved key r cur (subObjSet k v sub)
+    else if k ≠ key then groupScan fmtReal env key r cur (subObjSet k v sub)
     else
       match groupText fmtReal env v with
-      | some t => groupScan fmtReal env skipRemoved key r t sub
+      | some t => groupScan fmtReal env key r t sub
       | none => none
 
 /-- `groupedValue.object_.Get(str, str_len) += Memory::Move(new_sub_obj)` (Value.hpp:1896). -/
@@ -48,25 +47,25 @@ def groupAdd (cur : Key) (sub : Nat × List Slot) (res : Nat × List Slot) : Nat
   (e.1, slotUpd cur (addObj sub.1 sub.2) e.2)
 
 /-- Outer loop. -/
-def groupLoop (fmtReal : Nat → List Nat) (env : Env) (skipRemoved : Bool) (key : Key) :
+def groupLoop (fmtReal : Nat → List Nat) (env : Env) (key : Key) :
     List Doc → Key → Nat × List Slot → Bool × (Nat × List Slot)
   | [], _, res => (true, res)
   | obj _ slots :: rest, cur, res =>
-    match groupScan fmtReal env skipRemoved key slots cur (0, []) with
-    | some (cur', sub) => groupLoop fmtReal env skipRemoved key rest cur' (groupAdd cur' sub res)
+    match groupScan fmtReal env key slots cur (0, []) with
+    | some (cur', sub) => groupLoop fmtReal env key rest cur' (groupAdd cur' sub res)
     | none => (false, res)
   | _ :: _, _, res => (false, res)
 
 /-- `GroupBy(groupedValue, key, length)`: returns the result flag and the new `groupedValue`
 (`dest` is its previous content: untouched when the source is not an array). -/
-def groupByA (fmtReal : Nat → List Nat) (env : Env) (skipRemoved : Bool) (src : Doc) (key : Key) (dest : Doc) :
+def groupByA (fmtReal : Nat → List Nat) (env : Env) (src : Doc) (key : Key) (dest : Doc) :
     Bool × Doc :=
   match deref env src with
   | arr items =>
     match items with
     | obj _ fs :: _ =>
       if (slotFind key fs).isSome then
-        let r := groupLoop fmtReal env skipRemoved key items [] (0, [])
+        let r := groupLoop fmtReal env key items [] (0, [])
         (r.1, obj r.2.1 r.2.2)
       else (false, obj 0 [])
     | _ => (false, obj 0 [])
